@@ -81,6 +81,34 @@ func Run(c *hx.Ctx) {
 			}
 		}
 	}
+	// FAT volumes holding a root entry named like the volume label (label.go); last, so that the streams of the
+	// cases above are what they were
+	nLab := c.N(1, 9)
+	for i := 0; i < nLab; i++ {
+		rr := r.Fork()
+		id := fmt.Sprintf("fatlabel-%d", i)
+		if c.Only == "" || c.Only == id || strings.HasPrefix(c.Only, id+"/") {
+			e2eFatLabel(c, rr, id, i)
+		}
+	}
+	// ext4 setters on the whole inode record (frame.go)
+	nFr := c.N(2, 20)
+	for i := 0; i < nFr; i++ {
+		rr := r.Fork()
+		id := fmt.Sprintf("ext4frame-%d", i)
+		if c.Only == "" || c.Only == id || strings.HasPrefix(c.Only, id+"/") {
+			e2eExt4Frame(c, rr, id, i)
+		}
+	}
+	// FAT Chtimes: the three stamps of an entry as stored, inside and outside 1980..2107 (fatchtimes.go)
+	nCt := c.N(3, 18)
+	for i := 0; i < nCt; i++ {
+		rr := r.Fork()
+		id := fmt.Sprintf("fatchtimes-%d", i)
+		if c.Only == "" || c.Only == id || strings.HasPrefix(c.Only, id+"/") {
+			e2eFatChtimes(c, rr, id, i)
+		}
+	}
 }
 
 type kind int
